@@ -756,3 +756,106 @@ def static_judge_one(o, sc):
 
 
 static_judge = no_panic_judge(static_judge_one)
+
+
+# ------------------------------------------------------------------ C16 .dig documents
+
+def xml_escape(s):
+    return s.replace("&", "&amp;").replace("<", "&lt;").replace(">", "&gt;")
+
+
+def dig_xml(pins, tests, label_first=True):
+    """pins: (kind In|Out|Clock, label, bits|None, default (int|'Z'|None)); tests: (label|None, source)."""
+    out = ['<?xml version="1.0" encoding="utf-8"?>', "<circuit>", "<version>1</version>", "<attributes/>", "<visualElements>"]
+    for kind, label, bits, default in pins:
+        ents = []
+        lab = "<entry><string>Label</string><string>%s</string></entry>" % xml_escape(label) if label is not None else ""
+        if bits is not None:
+            ents.append("<entry><string>Bits</string><int>%d</int></entry>" % bits)
+        if default is not None:
+            if default == "Z":
+                ents.append('<entry><string>InDefault</string><value v="0" z="true"/></entry>')
+            else:
+                ents.append('<entry><string>InDefault</string><value v="%d" z="false"/></entry>' % default)
+        ents = ([lab] + ents) if label_first else (ents + [lab])
+        out.append("<visualElement><elementName>%s</elementName><elementAttributes>%s</elementAttributes><pos x=\"0\" y=\"0\"/></visualElement>"
+                   % (kind, "".join(ents)))
+    for label, src in tests:
+        lab = "<entry><string>Label</string><string>%s</string></entry>" % xml_escape(label) if label is not None else ""
+        data = "<entry><string>Testdata</string><testData><dataString>%s</dataString></testData></entry>" % xml_escape(src)
+        ents = [lab, data] if label_first else [data, lab]
+        out.append("<visualElement><elementName>Testcase</elementName><elementAttributes>%s</elementAttributes><pos x=\"0\" y=\"0\"/></visualElement>"
+                   % "".join(ents))
+    out += ["</visualElements>", "<wires/>", "</circuit>"]
+    return "\n".join(out)
+
+
+def dig_battery():
+    b = []
+    pins = [("In", "A", 4, 3), ("In", "B", None, None), ("Clock", "CLK", None, None), ("In", "D", 8, "Z"), ("Out", "Y", 8, None), ("Out", "Q", None, None)]
+    sigs = ["A:4:in:3", "B:1:in:0", "CLK:1:in:0", "D:8:in:Z", "Y:8:out", "Q:1:out"]
+    t1 = ("first", "A B Y\n1 0 1\n")
+    t2 = ("second", "A Y\n2 2\n3 3\n")
+    b.append(Scenario(dig_xml(pins, [t1, t2]), [], mode="dig", load="0", default_answer=[0, 0],
+                      expect={"dig": "ok", "signals": sigs, "tests": [t1, t2], "load": "ok", "row_inputs": [["1", "0", "0", "Z"]]},
+                      note="two tests, load by index"))
+    b.append(Scenario(dig_xml(pins, [t1, t2]), [], mode="dig", load="name:" + "second".encode().hex(), default_answer=[0, 0],
+                      expect={"dig": "ok", "load": "ok", "row_inputs": [["2", "0", "0", "Z"], ["3", "0", "0", "Z"]]}, note="load by name"))
+    b.append(Scenario(dig_xml(pins, [("same", "A Y\n1 1\n"), ("same", "A Y\n2 2\n")]), [], mode="dig",
+                      load="name:" + "same".encode().hex(), default_answer=[0, 0],
+                      expect={"dig": "ok", "load": "ok", "row_inputs": [["1", "0", "0", "Z"]]}, note="repeated label selects the first test"))
+    b.append(Scenario(dig_xml(pins, [(None, "A Y\n1 1\n"), (None, "A Y\n2 2\n")]), [], mode="dig",
+                      load="name:" + "(unnamed)".encode().hex(), default_answer=[0, 0],
+                      expect={"dig": "ok", "load": "ok", "row_inputs": [["1", "0", "0", "Z"]]}, note="unlabelled tests share a name; first wins"))
+    b.append(Scenario(dig_xml(pins, [t1]), [], mode="dig", load="5", expect={"dig": "ok", "load": "err"}, note="index out of range"))
+    b.append(Scenario(dig_xml(pins, [t1]), [], mode="dig", load="name:" + "nope".encode().hex(), expect={"dig": "ok", "load": "err"}, note="unknown name"))
+    bd1 = ("rb", "D D_out Y\n1 X 1\n")
+    bd2 = ("plain", "A Y\n1 1\n")
+    sigs_b = ["A:4:in:3", "B:1:in:0", "CLK:1:in:0", "D:8:bidir:Z", "Y:8:out", "Q:1:out"]
+    b.append(Scenario(dig_xml(pins, [bd1, bd2]), [], mode="dig", load="0", default_answer=[0, 0, 0],
+                      expect={"dig": "ok", "signals": sigs_b, "load": "ok"}, note="_out column in an earlier test makes the pin bidirectional"))
+    b.append(Scenario(dig_xml(pins, [bd2, bd1]), [], mode="dig", load="1", default_answer=[0, 0, 0],
+                      expect={"dig": "ok", "signals": sigs_b, "load": "ok"}, note="_out column in the last test"))
+    odd = [("In", "Bits", 4, 2), ("In", "InDefault", 2, "Z"), ("Out", "Label", 3, None)]
+    b.append(Scenario(dig_xml(odd, [("Testdata", "Bits Label\n1 1\n")], label_first=True), [], mode="dig", load="0", default_answer=[0],
+                      expect={"dig": "ok", "signals": ["Bits:4:in:2", "InDefault:2:in:Z", "Label:3:out"], "tests": [("Testdata", "Bits Label\n1 1\n")], "load": "ok"},
+                      note="labels that spell attribute keys, label entry first"))
+    b.append(Scenario(dig_xml(odd, [("Testdata", "Bits Label\n1 1\n")], label_first=False), [], mode="dig", load="0", default_answer=[0],
+                      expect={"dig": "ok", "signals": ["Bits:4:in:2", "InDefault:2:in:Z", "Label:3:out"], "load": "ok"},
+                      note="labels that spell attribute keys, label entry last"))
+    b.append(Scenario(dig_xml(pins, [("t", "A X_out Y\n1 1 1\n")]), [], mode="dig", expect={"dig": "err"}, note="_out column whose stem is no pin"))
+    b.append(Scenario(dig_xml(pins, [("t", "A Y_out\n1 1\n")]), [], mode="dig", expect={"dig": "err"}, note="_out column whose stem is an output pin"))
+    b.append(Scenario("<circuit><visualElements>", [], mode="dig", expect={"dig": "err"}, note="truncated XML"))
+    b.append(Scenario("", [], mode="dig", expect={"dig": "err"}, note="empty document"))
+    pins2 = pins + [("Out", "A_out", 2, None)]
+    b.append(Scenario(dig_xml(pins2, [("t", "A A_out\n1 1\n")]), [], mode="dig", load="0", default_answer=[0, 0, 0],
+                      expect={"dig": "ok", "signals": ["A:4:in:3", "B:1:in:0", "CLK:1:in:0", "D:8:in:Z", "Y:8:out", "Q:1:out", "A_out:2:out"], "load": "ok"},
+                      note="a pin labelled A_out is its own signal, A stays an input"))
+    return b
+
+
+def dig_judge_one(o, sc):
+    e = sc.expect
+    st = o.stage.get("DIG", ("missing", ""))[0]
+    if "dig" in e and st != e["dig"]:
+        return "loading the document is %s, expected %s (%s)" % (st, e["dig"], sc.note)
+    if "signals" in e:
+        got = [l.split(" ", 1)[1] for l in o.lines if l.startswith("DIGSIGNAL ")]
+        if got != e["signals"]:
+            return "signals are %s, expected %s (%s)" % (got, e["signals"], sc.note)
+    if "tests" in e:
+        got = []
+        for l in o.lines:
+            if l.startswith("DIGTEST "):
+                _, a, b_ = (l.split(" ") + [""])[:3]
+                got.append((bytes.fromhex(a).decode(), bytes.fromhex(b_).decode()))
+        if got != [tuple(t) for t in e["tests"]]:
+            return "tests are %s, expected %s (%s)" % (got, e["tests"], sc.note)
+    if "load" in e:
+        lst = o.stage.get("LOAD", ("missing", ""))[0]
+        if lst != e["load"]:
+            return "load_test is %s, expected %s (%s)" % (lst, e["load"], sc.note)
+    return literal_judge_one(o, sc)
+
+
+dig_judge = no_panic_judge(dig_judge_one)
